@@ -71,7 +71,9 @@ pub struct Corruption {
     pub val: u8,
     /// 0 = corrupt, then open the database (cold read);
     /// 1 = open, query every table (blocks cached), corrupt, query again;
-    /// 2 = open, corrupt before any read, query.
+    /// 2 = open, corrupt before any read, query;
+    /// 3 = open, query every table (every block read and verified once), corrupt, drop the
+    ///     block cache (cache pressure), query again.
     pub mode: u8,
     /// Let a compaction pass run over the corrupted data before the final queries.
     pub compact_after: bool,
